@@ -266,6 +266,41 @@ theorem tie_twFlush :
     (twFlushDetail = expected_twFlushPinned ∧ serveHTTPShape = expected_serveHTTPShape statusCondPinned) ∨
     (twFlushDetail = expected_twFlushFixed ∧ serveHTTPShape = expected_serveHTTPShape statusCondFixed) := by decide
 
+/-- `Hijack` PINNED: straight pass-through (model: `hijackPinned`; finding hijack-after-timeout) or FIXED
+(fixes/C04-hijack-after-timeout.patch): under `mu`, ErrHandlerTimeout once `timedOut` (model: `hijack`) -/
+theorem tie_twHijack :
+    twHijackDetail = ["if hijacked, ok := tw.w.(http.Hijacker); ok {", "return hijacked.Hijack()", "}",
+      "return nil, nil, errors.New(\"server doesn't support hijacking\")"] ∨
+    twHijackDetail = ["tw.mu.Lock()", "defer tw.mu.Unlock()", "if tw.timedOut {", "return nil, nil, http.ErrHandlerTimeout", "}",
+      "if hijacked, ok := tw.w.(http.Hijacker); ok {", "return hijacked.Hijack()", "}",
+      "return nil, nil, errors.New(\"server doesn't support hijacking\")"] := by decide
+
+/-- `Push` is a pass-through to the underlying writer (HTTP/2 push promises are not part of this response; not modelled) -/
+theorem tie_twPush :
+    twPushDetail = ["if pusher, ok := tw.w.(http.Pusher); ok {", "return pusher.Push(target, opts)", "}",
+      "return http.ErrNotSupported"] := by decide
+
+/-- the timeout branch's `httpx.ErrorCtx(…, fn)`: without a user-installed error handler (`handler == nil`) exactly the
+functions passed are called — our closure writing 499/503 + reason, no header (model: `mAdv` rows t1→t3) -/
+theorem tie_httpxDefault :
+    httpxErrorCtx = ["doHandleError(w, err, buildErrorHandler(ctx), writeJson, fns...)"] ∧
+    httpxDefaultError = ["if handler == nil { if len(fns) > 0 { range fns { fn(w, err)"] := by decide
+
+/-! ### zrpc: configuration → interceptors (model: `srvWiredDeadline`, `cliConfTimeout`, `cliWiredDeadline`) -/
+
+theorem tie_zrpcSrvWiring :
+    zrpcSrvWiring = ["if c.Timeout > 0 { svr.AddUnaryInterceptors(serverinterceptors.UnaryTimeoutInterceptor( time.Duration(c.Timeout)*time.Millisecond, c.MethodTimeouts...))"] := rfl
+
+theorem tie_zrpcCliWiring :
+    zrpcCliConf = ["if c.Timeout > 0 { opts = append(opts, WithTimeout(time.Duration(c.Timeout)*time.Millisecond))",
+      "opts = append(opts, options...)"] ∧
+    zrpcCliWithTimeoutOpt = ["options.Timeout = timeout"] ∧
+    zrpcCliDialOptions = ["var cliOpts ClientOptions", "range opts { opt(&cliOpts)",
+      "options = append(options, grpc.WithChainUnaryInterceptor(c.buildUnaryInterceptors(cliOpts.Timeout)...), grpc.WithChainStreamInterceptor(c.buildStreamInterceptors()...), )",
+      "return append(options, cliOpts.DialOptions...)"] ∧
+    zrpcCliWiring = ["if c.middlewares.Timeout { interceptors = append(interceptors, clientinterceptors.TimeoutInterceptor(timeout))"] ∧
+    zrpcWithCallTimeout = ["return clientinterceptors.WithCallTimeout(timeout)"] := ⟨rfl, rfl, rfl, rfl, rfl⟩
+
 /-- `Header()` hands out the map without locking (model: `setHeader` needs no lock) -/
 def expected_twHeaderShape : List String := [
   "return"]
